@@ -531,7 +531,7 @@ def run():
     chk = Check("C08")
     rng = random.Random(SEED * 7919 + 8)
     for cfg in (["Fanout_4_3", "Fanout_5_2", "Fanout_2_4"] if QUICK else ["Fanout_4_3", "Fanout_5_2", "Fanout_2_4", "Fanout_3_5", "Fanout_6_3"]):
-        mc = common.tlc_mc("Fanout", cfg=cfg, timeout=900)
+        mc = common.tlc_mc("Fanout", cfg=cfg, timeout=3000)
         chk.add_tlc(mc)
         chk.extra.setdefault("fanout_mc", {})[cfg] = dict(states=mc["states"], completed=mc["ok"])
         if not mc["ok"]:
